@@ -435,7 +435,8 @@ Qed.
 
 (* ================================================================================================ *)
 (* C05 : termination of reference resolution (repaired resolver: the while-loop remembers the       *)
-(*       reference texts it has tried)                                                              *)
+(*       reference texts it has tried, follows plain references only, and the index applies to the  *)
+(*       value the chain ends in)                                                                   *)
 (* ================================================================================================ *)
 Definition chase_f (rr : str -> rres) : nat -> option tree -> option str -> list str -> rres * option str :=
   fix chase_f (g : nat) (value : option tree) (last_ref : option str) (tried : list str) {struct g}
@@ -449,6 +450,7 @@ Definition chase_f (rr : str -> rres) : nat -> option tree -> option str -> list
             if tree_has_dollar t then
               let r2 := py_str_tree t in
               if existsb (str_eqb r2) tried then (RNone, last_ref) else
+              if negb (is_plain_reference r2) then (RNone, last_ref) else
               match rr r2 with
               | RVal t' => chase_f g' (Some t') (Some r2) (r2 :: tried)
               | RNone => (RNone, Some r2)
@@ -459,10 +461,9 @@ Definition chase_f (rr : str -> rres) : nat -> option tree -> option str -> list
         end
     end.
 
-Definition resolve_tail (vars : vtab) (reference name : str) (chased : rres * option str) : rres :=
+Definition resolve_tail (reference : str) (chased : rres * option str) : rres :=
   let indexing := ref_indexing reference in
   let '(val, last_ref) := chased in
-  let name' := match last_ref with Some r2 => ref_name r2 | None => name end in
   match val with
   | RFuel => RFuel
   | ROutside => ROutside
@@ -473,9 +474,9 @@ Definition resolve_tail (vars : vtab) (reference name : str) (chased : rres * op
           match parse_indices (S (length indexing)) indexing with
           | None => ROutside
           | Some idx =>
-              match alookup (KS name') vars with
-              | Some base => match index_tree base idx with Some t => RVal t | None => val end
-              | None => val
+              match val with
+              | RVal t => match index_tree t idx with Some t' => RVal t' | None => val end
+              | _ => val
               end
           end
       end
@@ -487,152 +488,70 @@ Lemma resolve_ref_S : forall f vars seen reference,
   if existsb (str_eqb name) seen then RNone else
   match alookup (KS name) vars with
   | None => RNone
-  | Some v0 => resolve_tail vars reference name
+  | Some v0 => resolve_tail reference
                  (chase_f (resolve_ref f vars (seen ++ [name])) (S (vars_size vars)) (Some v0) None [])
   end.
 Proof. reflexivity. Qed.
 
-(* ---- everything indexing can reach inside a value ------------------------------------------------------ *)
-Fixpoint reach (t : tree) : list tree :=
-  t :: match t with
-       | Leaf (SStr s) => map (fun c => Leaf (SStr [c])) s
-       | Lst ts => flat_map reach ts
-       | _ => []
-       end.
-Definition proper (t : tree) : list tree := tl (reach t).
+(* ---- indexing a value without a dollar sign gives a value without a dollar sign ------------------------ *)
+Lemma tree_has_dollar_lst : forall ts,
+  tree_has_dollar (Lst ts) = existsb tree_has_dollar ts.
+Proof. induction ts as [|c ts IH]; [reflexivity|]. cbn [existsb]. rewrite <- IH. reflexivity. Qed.
 
-Lemma reach_self : forall t, In t (reach t).
-Proof. intros [v|kvs|ts]; left; reflexivity. Qed.
-
-Lemma index_leaf_char : forall idx c t, index_tree (Leaf (SStr [c])) idx = Some t -> t = Leaf (SStr [c]).
+Lemma index_no_dollar : forall idx t t', tree_has_dollar t = false -> index_tree t idx = Some t' ->
+  tree_has_dollar t' = false.
 Proof.
-  induction idx as [|i idx IH]; intros c t H; cbn [index_tree] in H; [inversion H; reflexivity|].
-  destruct (norm_index i (length [c])) as [n|] eqn:En; [|discriminate].
-  apply norm_index_lt in En. cbn [length] in En. assert (n = 0%nat) by lia. subst n.
-  cbn [nth_error] in H. apply IH. exact H.
-Qed.
-
-Lemma index_proper : forall idx i t t',
-  (forall c t'', index_tree c idx = Some t'' -> In t'' (reach c)) ->
-  index_tree t (i :: idx) = Some t' -> In t' (proper t).
-Proof.
-  intros idx i t t' IH H. cbn [index_tree] in H. destruct t as [v|kvs|ts]; [|discriminate|].
+  induction idx as [|i idx IH]; intros t t' D H; cbn [index_tree] in H; [inversion H; subst; exact D|].
+  destruct t as [v|kvs|ts]; [|discriminate|].
   - destruct v as [z|l|b| |s]; try discriminate.
     destruct (norm_index i (length s)) as [n|]; [|discriminate].
     destruct (nth_error s n) as [c|] eqn:En; [|discriminate].
-    apply index_leaf_char in H. subst t'. unfold proper. cbn [reach tl].
-    apply in_map_iff. exists c. split; [reflexivity|]. eapply nth_error_In. exact En.
+    apply (IH _ _ ) in H; [exact H|]. cbn [tree_has_dollar] in D |- *. unfold has_char in *. cbn [existsb].
+    rewrite orb_false_r. destruct (c_dollar =? c) eqn:E; [|reflexivity].
+    assert (existsb (N.eqb c_dollar) s = true); [|congruence].
+    apply existsb_exists. exists c. split; [eapply nth_error_In; exact En | exact E].
   - destruct (norm_index i (length ts)) as [n|]; [|discriminate].
     destruct (nth_error ts n) as [c|] eqn:En; [|discriminate].
-    unfold proper. cbn [reach tl]. apply in_flat_map. exists c. split; [eapply nth_error_In; exact En|].
-    apply IH. exact H.
+    apply (IH _ _) in H; [exact H|]. rewrite tree_has_dollar_lst in D.
+    destruct (tree_has_dollar c) eqn:E; [|reflexivity].
+    assert (existsb tree_has_dollar ts = true); [|congruence].
+    apply existsb_exists. exists c. split; [eapply nth_error_In; exact En | exact E].
 Qed.
 
-Lemma index_reach : forall idx t t', index_tree t idx = Some t' -> In t' (reach t).
-Proof.
-  induction idx as [|i idx IH]; intros t t' H.
-  - cbn [index_tree] in H. inversion H; subst. apply reach_self.
-  - pose proof (index_proper idx i t t' IH H) as Hp. unfold proper in Hp.
-    destruct t as [v|kvs|ts]; cbn [reach tl] in Hp |- *; right; exact Hp.
-Qed.
-
-Lemma index_in_proper : forall idx t t', idx <> [] -> index_tree t idx = Some t' -> In t' (proper t).
-Proof.
-  intros [|i idx] t t' Hne H; [contradiction|]. eapply index_proper; [|exact H]. intros c t''. apply index_reach.
-Qed.
-
-Lemma reach_length : forall t, (length (reach t) <= tree_size t)%nat.
-Proof.
-  induction t as [v|kvs IH|ts IH] using tree_ind'.
-  - destruct v as [z|l|b| |s]; cbn [reach tree_size length]; try lia. rewrite map_length. lia.
-  - cbn [reach tree_size length]. lia.
-  - cbn [reach tree_size length]. apply le_n_S.
-    induction IH as [|c l Hc Hl IHl]; cbn [flat_map fold_right length]; [lia|].
-    rewrite app_length. lia.
-Qed.
-
-Lemma proper_length : forall t, (S (length (proper t)) <= tree_size t)%nat.
-Proof.
-  intro t. pose proof (reach_length t) as H. unfold proper.
-  destruct t as [v|kvs|ts]; cbn [reach tl length] in H |- *; exact H.
-Qed.
-
-(* the texts of everything obtainable from the table by indexing *)
-Definition cands (vars : vtab) : list str := flat_map (fun kv => map py_str_tree (proper (snd kv))) vars.
-
-Lemma cands_length : forall vars : vtab, (length (cands vars) + length vars <= vars_size vars)%nat.
-Proof.
-  induction vars as [|[k v] vars IH]; [simpl; lia|].
-  unfold cands, vars_size in *. cbn [flat_map fold_right length snd]. rewrite app_length, map_length.
-  pose proof (proper_length v). lia.
-Qed.
-
-Definition indexed (vars : vtab) (t : tree) : Prop :=
-  exists k v idx, In (k, v) vars /\ idx <> [] /\ index_tree v idx = Some t.
-
-Lemma indexed_cand : forall vars t, indexed vars t -> In (py_str_tree t) (cands vars).
-Proof.
-  intros vars t [k [v [idx [Hin [Hne Hix]]]]]. unfold cands. apply in_flat_map. exists (k, v).
-  split; [exact Hin|]. cbn [snd]. apply in_map. eapply index_in_proper; eassumption.
-Qed.
-
-(* the loop: every iteration but the last adds a new text out of a fixed finite stock *)
-Lemma chase_ok : forall vars rr (C : list str),
+(* the loop: an inner resolution never hands back a value with a dollar sign, so two rounds are enough *)
+Lemma chase_ok : forall rr,
   (forall r2, rr r2 <> RFuel) ->
-  (forall r2 t, rr r2 = RVal t -> tree_has_dollar t = true -> indexed vars t) ->
-  incl (cands vars) C ->
-  forall g t lr tried, NoDup tried -> incl tried C ->
-  (tree_has_dollar t = true -> In (py_str_tree t) C) ->
-  (length C < g + length tried)%nat ->
+  (forall r2 t, rr r2 = RVal t -> tree_has_dollar t = false) ->
+  forall g t lr tried, (2 <= g)%nat ->
   fst (chase_f rr g (Some t) lr tried) <> RFuel /\
   (forall t', fst (chase_f rr g (Some t) lr tried) = RVal t' -> tree_has_dollar t' = false).
 Proof.
-  intros vars rr C H1 H2 HC. induction g as [|g IH]; intros t lr tried Hnd Hinc Ht Hlen.
-  - pose proof (NoDup_incl_length Hnd Hinc). simpl in Hlen. lia.
-  - cbn [chase_f]. destruct (tree_has_dollar t) eqn:D0;
-      [|cbn [fst]; split; [discriminate | intros t' E; inversion E; subst; exact D0]].
-    cbv zeta. destruct (existsb (str_eqb (py_str_tree t)) tried) eqn:Et;
-      [cbn [fst]; split; [discriminate | intros; discriminate]|].
-    destruct (rr (py_str_tree t)) as [|t1| |] eqn:R1; cbn [fst];
-      try (split; [discriminate | intros; discriminate]); [|exfalso; exact (H1 _ R1)].
-    apply IH.
-    + constructor; [|exact Hnd]. intro Hx.
-      assert (existsb (str_eqb (py_str_tree t)) tried = true).
-      { apply existsb_exists. exists (py_str_tree t). split; [exact Hx | apply ScalarProofs.str_eqb_refl]. }
-      congruence.
-    + intros x [Hx|Hx]; [subst x; apply Ht; reflexivity | apply Hinc; exact Hx].
-    + intro D1. apply HC. apply indexed_cand. exact (H2 _ _ R1 D1).
-    + cbn [length]. lia.
+  intros rr H1 H2 g t lr tried Hg. destruct g as [|[|g]]; [lia|lia|].
+  cbn [chase_f]. destruct (tree_has_dollar t) eqn:D0;
+    [|cbn [fst]; split; [discriminate | intros t' E; inversion E; subst; exact D0]].
+  cbv zeta. destruct (existsb (str_eqb (py_str_tree t)) tried);
+    [cbn [fst]; split; [discriminate | intros; discriminate]|].
+  destruct (negb (is_plain_reference (py_str_tree t)));
+    [cbn [fst]; split; [discriminate | intros; discriminate]|].
+  destruct (rr (py_str_tree t)) as [|t1| |] eqn:R1; cbn [fst];
+    try (split; [discriminate | intros; discriminate]); [|exfalso; exact (H1 _ R1)].
+  rewrite (H2 _ _ R1). cbn [fst]. split; [discriminate|]. intros t' E. inversion E; subst. exact (H2 _ _ R1).
 Qed.
 
-Lemma parse_indices_nonempty : forall fuel c s idx, parse_indices fuel (c :: s) = Some idx -> idx <> [].
-Proof.
-  intros fuel c s idx H. destruct fuel as [|f]; [discriminate|]. cbn [parse_indices] in H.
-  destruct (c =? c_lbrk); [|discriminate].
-  destruct (span is_digit _) as [ds rest]. destruct ds as [|d ds]; [discriminate|].
-  destruct rest as [|x rest']; [discriminate|]. destruct (x =? c_rbrk); [|discriminate].
-  destruct (parse_indices f rest'); [|discriminate]. inversion H. discriminate.
-Qed.
-
-Lemma resolve_tail_ok : forall vars r name val lr,
+Lemma resolve_tail_ok : forall r val lr,
   val <> RFuel -> (forall t, val = RVal t -> tree_has_dollar t = false) ->
-  resolve_tail vars r name (val, lr) <> RFuel /\
-  (forall t, resolve_tail vars r name (val, lr) = RVal t -> tree_has_dollar t = true -> indexed vars t).
+  resolve_tail r (val, lr) <> RFuel /\
+  (forall t, resolve_tail r (val, lr) = RVal t -> tree_has_dollar t = false).
 Proof.
-  intros vars r name val lr Hf Hd. unfold resolve_tail.
-  assert (Hval : val <> RFuel /\ (forall t, val = RVal t -> tree_has_dollar t = true -> indexed vars t)).
-  { split; [exact Hf|]. intros t E D. rewrite (Hd t E) in D. discriminate. }
-  clear Hd.
+  intros r val lr Hf Hd. unfold resolve_tail.
   destruct val as [|t0| |]; [ | | split; [discriminate | intros; discriminate] | exfalso; apply Hf; reflexivity].
-  all: destruct (ref_indexing r) as [|x ix] eqn:Ei; [exact Hval|].
-  all: destruct (parse_indices (S (length (x :: ix))) (x :: ix)) as [idx|] eqn:Ep;
+  all: destruct (ref_indexing r) as [|x ix]; [split; [exact Hf | exact Hd]|].
+  all: destruct (parse_indices (S (length (x :: ix))) (x :: ix)) as [idx|];
        [|split; [discriminate | intros; discriminate]].
-  all: destruct (alookup (KS match lr with Some r2 => ref_name r2 | None => name end) vars) as [base|] eqn:Ea;
-       [|exact Hval].
-  all: destruct (index_tree base idx) as [ti|] eqn:Ex; [|exact Hval].
-  all: split; [discriminate|]; intros t E D; inversion E; subst t;
-       eexists; exists base, idx; split; [apply SDictProofs.alookup_Some_In; exact Ea|];
-       split; [exact (parse_indices_nonempty _ _ _ _ Ep) | exact Ex].
+  - split; [exact Hf | exact Hd].
+  - destruct (index_tree t0 idx) as [ti|] eqn:Ex; [|split; [exact Hf | exact Hd]].
+    split; [discriminate|]. intros t E. inversion E; subst t.
+    exact (index_no_dollar idx t0 ti (Hd t0 eq_refl) Ex).
 Qed.
 
 Lemma NoDup_snoc : forall {A} (l : list A) x, NoDup l -> ~ In x l -> NoDup (l ++ [x]).
@@ -658,11 +577,20 @@ Proof.
   intros k Hk. apply in_map_iff in Hk. destruct Hk as [n [E Hn]]. subst k. apply Hin. exact Hn.
 Qed.
 
+Lemma tree_size_pos : forall t, (1 <= tree_size t)%nat.
+Proof. intros [[]| |]; cbn [tree_size]; lia. Qed.
+
+Lemma vars_size_length : forall vars : vtab, (length vars <= vars_size vars)%nat.
+Proof.
+  induction vars as [|[k v] vars IH]; [simpl; lia|].
+  unfold vars_size in *. cbn [fold_right length snd]. pose proof (tree_size_pos v). lia.
+Qed.
+
 Lemma resolve_ok : forall vars fuel seen r,
   NoDup seen -> (forall n, In n seen -> In (KS n) (map fst vars)) ->
   (length vars + 1 <= fuel + length seen)%nat ->
   resolve_ref fuel vars seen r <> RFuel /\
-  (forall t, resolve_ref fuel vars seen r = RVal t -> tree_has_dollar t = true -> indexed vars t).
+  (forall t, resolve_ref fuel vars seen r = RVal t -> tree_has_dollar t = false).
 Proof.
   intros vars. induction fuel as [|f IH]; intros seen r Hnd Hin Hlen.
   - pose proof (seen_bound vars seen Hnd Hin). lia.
@@ -680,25 +608,27 @@ Proof.
       apply SDictProofs.alookup_Some_In in Ea. apply in_map_iff. exists (KS name, v0). split; [reflexivity|exact Ea]. }
     assert (Hl' : length seen' = S (length seen)) by (unfold seen'; rewrite app_length; simpl; lia).
     assert (Hrr : forall r2, resolve_ref f vars seen' r2 <> RFuel /\
-                   (forall t, resolve_ref f vars seen' r2 = RVal t -> tree_has_dollar t = true -> indexed vars t)).
+                   (forall t, resolve_ref f vars seen' r2 = RVal t -> tree_has_dollar t = false)).
     { intro r2. apply IH; [exact Hnd' | exact Hin' | lia]. }
     assert (Hv : (1 <= length vars)%nat).
     { destruct vars; [discriminate Ea | simpl; lia]. }
-    pose proof (cands_length vars) as Hcl.
-    destruct (chase_ok vars (resolve_ref f vars seen') (py_str_tree v0 :: cands vars)
+    pose proof (vars_size_length vars) as Hvs.
+    destruct (chase_ok (resolve_ref f vars seen')
                 (fun r2 => proj1 (Hrr r2)) (fun r2 => proj2 (Hrr r2))
-                (fun x Hx => or_intror Hx)
-                (S (vars_size vars)) v0 None []) as [C1 C2].
-    { constructor. }
-    { intros x []. }
-    { intros _. left. reflexivity. }
-    { cbn [length]. lia. }
+                (S (vars_size vars)) v0 None []) as [C1 C2]; [lia|].
     destruct (chase_f (resolve_ref f vars seen') (S (vars_size vars)) (Some v0) None []) as [val lr].
     cbn [fst] in C1, C2.
-    exact (resolve_tail_ok vars r name val lr C1 C2).
+    exact (resolve_tail_ok r val lr C1 C2).
 Qed.
 
 Lemma resolve_terminates : forall vars r, resolve_reference vars r <> RFuel.
+Proof.
+  intros vars r. unfold resolve_reference.
+  apply (resolve_ok vars (S (S (length vars))) [] r); [constructor | intros n [] | simpl; lia].
+Qed.
+
+(* a resolved reference never has a dollar sign left in it *)
+Lemma resolve_value_no_dollar : forall vars r t, resolve_reference vars r = RVal t -> tree_has_dollar t = false.
 Proof.
   intros vars r. unfold resolve_reference.
   apply (resolve_ok vars (S (S (length vars))) [] r); [constructor | intros n [] | simpl; lia].
